@@ -45,25 +45,26 @@ ASSUMPTIONS = ["NumPy matmul / linalg.svd / eigvalsh / eigvals on dense sector m
 
 TOL_REC = 1e-11       # relative to ||a||
 TOL_ISO = 5e-12       # absolute, entries of U^+U - 1
-TOL_ISO_EIGH = 2e-11  # eigh (MRRR driver): orthogonality degrades for clustered / degenerate eigenvalues
+TOL_ISO_EIGH = 5e-11  # eigh (MRRR driver): orthogonality degrades for clustered / degenerate eigenvalues (observed <= 4e-13)
+TOL_REC_EIGH = 3e-11  # same for ||U S U^+ - a|| / ||a|| (observed <= 1.3e-13 on designed degenerate spectra)
 TOL_VAL = 1e-11       # spectrum vs numpy, relative to ||a||
 
 
 def plan(tier):
     if tier == "thorough":
-        return {"cases": 224000, "shards": 16, "budget_s": 800}
+        return {"cases": 140000, "shards": 16, "budget_s": 800}
     return {"cases": 8960, "shards": 8, "budget_s": 100}
 
 
 def floors(tier):
-    k = 100 if tier == "thorough" else 5
+    k = 60 if tier == "thorough" else 5
     return {"evaluations": 800 * k, "op:svd": 250 * k, "op:qr": 120 * k, "op:eigh": 120 * k, "op:eig": 100 * k,
             "reconstructions_compared": 700 * k, "isometry_checks": 900 * k, "sector_spectra_compared": 1200 * k,
             "R_blocks_triangular_checked": 150 * k, "R_harness_order_checked": 40 * k,
             "lazy_operands": 250 * k, "fused_operands": 250 * k, "fused_hard": 80 * k, "fused_meta": 80 * k,
             "nonzero_charge": 150 * k, "rectangular_sectors": 300 * k, "complex_operands": 250 * k,
             "nU_false": 80 * k, "sU_minus": 200 * k, "negative_axis_args": 150 * k, "axis_not_default": 300 * k,
-            "fix_signs_columns": 200 * k, "designed_spectrum": 150 * k, "compute_uv_false": 30 * k, "eig_biorthonormal_checked": 50 * k,
+            "fix_signs_columns": 200 * k, "designed_spectrum": 150 * k, "compute_uv_false": 30 * k, "eig_biorthonormal_checked": 50 * k, "eig_nonnormal_scaled_inputs": 20 * k, "eig_directed_ill_conditioned": 1,
             "which:LM": 30 * k, "which:SM": 30 * k, "which:LR": 30 * k, "which:SR": 30 * k}
 
 
@@ -671,8 +672,8 @@ def op_eigh(E):
                 Um = F.mat_last(Ud)
                 ctx.count("reconstructions_compared")
                 err = F.fro((Um * s[None, :]) @ Um.conj().T - sec.M)
-                if not ctx.margin("eigh:reconstruction", err, TOL_REC * anorm):
-                    ctx.violation("eigh:reconstruction", f"eigh: ||U S U^+ - a|| = {err:.3e} (allowed {TOL_REC * anorm:.2e}), connecting leg at "
+                if not ctx.margin("eigh:reconstruction", err, TOL_REC_EIGH * anorm):
+                    ctx.violation("eigh:reconstruction", f"eigh: ||U S U^+ - a|| = {err:.3e} (allowed {TOL_REC_EIGH * anorm:.2e}), connecting leg at "
                                   f"Uaxis={Uaxis}", w)
                 check_identity(ctx, "eigh", "U^+U", Um.conj().T @ Um, w, TOL_ISO_EIGH)
                 compare_spectra(ctx, "eigh", S, sec, "eigh", which, anorm, w)
@@ -684,6 +685,10 @@ def op_eig(E):
     import yastn
     ctx, rng = E.ctx, E.rng
     h, k = square_tensor(E, "gen")
+    if rng.random() < 0.2 and h.blocks:
+        # non-normal input: diagonal similarity with factors 1/32, 1, 32 (eigenvector condition number up to ~1e3)
+        h = F.similarity_scale(rng, h, k)
+        ctx.count("eig_nonnormal_scaled_inputs")
     hp, posL, posR = hide_pairs(E, h, k)
     operand, left, right = paired_operand(E, hp, posL, posR)
     axes = F.axes_arg(rng, left, right)
@@ -746,6 +751,34 @@ def op_eig(E):
     ctx.case(("eig", operand.sig(), left, right, sU, nU, Uaxis, Vaxis, which), bool(hp.blocks), E.sample("eig", hp, operand, params))
 
 
+# A non-degenerate real 3x3 matrix (eigenvalues 2.51, -1.4346 +- 0.00286j; eigenvector condition number 6e2) found by the
+# thorough tier (seed 0): kept as a directed witness so that the mechanism 'eig:raises-ValueError:biorthonormalization-self-check'
+# is exercised deterministically in every run (random generation hits it about once in 3e4 eig cases).
+ILL_CONDITIONED_3x3 = [[1.9618496316644225, -0.5183904134915305, -1.8301511393252996],
+                       [1.1370133248433514, -0.7544725759266235, -0.08253371956116685],
+                       [-1.245938469862127, -1.0996626101845752, -1.564222419944967]]
+
+
+def probe_eig_ill_conditioned(ctx, idx):
+    import yastn
+    E = Env(ctx, idx, "dense")
+    leg = D.HLeg("dense", 1, [((), 3)])
+    ht = D.HTensor("dense", (leg, leg.conj()), (), {((), ()): np.array(ILL_CONDITIONED_3x3)}, "float64")
+    operand = F.Operand(ht, ht.to_yastn(E.cfg), [(0,), (1,)], {"state": "plain", "fusion": [], "post": "none"})
+    params = {"axes": [[0], [1]], "sU": 1, "nU": True, "Uaxis": -1, "Vaxis": 0, "which": "LM", "directed": True}
+    ctx.count("eig_directed_ill_conditioned")
+    try:
+        U, S, V = yastn.eig(operand.y, axes=(0, 1))
+    except ValueError as e:
+        if "Biorthonormalization" not in str(e):
+            raise
+        ctx.violation("eig:raises-ValueError:biorthonormalization-self-check",
+                      f"eig raised ValueError({e}) on the directed non-degenerate 3x3 witness (eigenvalues 2.51, -1.4346+-0.00286j; smallest "
+                      "left/right overlap 3.4e-3, eigenvector condition number 592)", wit(E, "eig", ht, operand, params))
+        return
+    check_usv(E, "eig", ht, operand, (0,), (1,), U, S, V, 1, True, -1, 0, "eig", "LM", params)
+
+
 OPS = [op_svd, op_qr, op_eigh, op_svd, op_eig, op_svd, op_qr, op_eigh]
 
 
@@ -753,6 +786,8 @@ def run_case(ctx, idx):
     sym = G.ALL_SYMS[idx % len(G.ALL_SYMS)]
     op = OPS[(idx // len(G.ALL_SYMS)) % len(OPS)]
     op(Env(ctx, idx, sym))
+    if idx == 0:
+        probe_eig_ill_conditioned(ctx, idx)
 
 
 # ------------------------------------------------------------------ canaries
